@@ -37,7 +37,7 @@ ASSUMPTIONS = [
 CLASSES = ["contract/min_dt", "contract/max_dt", "contract/eft0", "contract/eft1", "contract/backward", "contract/equal", "contract/ulp", "contract/nearzero",
            "contract/dt_gt_interval", "contract/adaptive_shortened", "contract/retry_last_step",
            "status/escape", "status/encounter", "status/collision", "status/noparticles", "status/stop",
-           "status/success", "status/k0", "split/pieces>=2"]
+           "status/success", "status/k0", "status/at_last_boundary", "status/at_last_boundary_eft1", "split/pieces>=2"]
 
 FIXED_FAMS = ["whfast", "saba", "eos", "janus", "mercurius", "trace", "leapfrog"]
 
@@ -439,9 +439,14 @@ def run_split(case, ctx):
 # (q<0 / q>1: already true at the first boundary / never true)
 Q = st.one_of(S.floats(0.02, 0.98), S.floats(0.02, 0.98), S.floats(0.02, 0.98), st.sampled_from([-0.2, 1.2]))
 
+# "at": aim at one step boundary of the pilot run (fraction of its length; 1.0 = the last boundary, which for
+# exact_finish_time=1 is the end of the shortened step): the threshold is put half-way between the extreme reached
+# before that boundary and the value at it, so that the condition first becomes true exactly there
+AT = st.one_of(st.none(), st.just(1.0), st.just(1.0), S.floats(0.0, 1.0))
+
 cond = st.one_of(
-    st.fixed_dictionaries({"kind": st.just("escape"), "q": Q}),
-    st.fixed_dictionaries({"kind": st.just("encounter"), "q": Q}),
+    st.fixed_dictionaries({"kind": st.just("escape"), "q": Q, "at": AT}),
+    st.fixed_dictionaries({"kind": st.just("encounter"), "q": Q, "at": AT}),
     st.fixed_dictionaries({"kind": st.just("collision"), "q": Q,
                            "share": S.floats(0.05, 0.95)}),
     st.fixed_dictionaries({"kind": st.just("noparticles"), "k": st.integers(0, 40)}),
@@ -566,20 +571,34 @@ def run_status(case, ctx):
     pilot = None
     emax = emin = 0.0
     coll = False
+    aimed = False
     kstop = knone = None
     kinds = []
     for c in case["conds"]:
         k = c["kind"]
         if k in kinds:
             continue
+        jat = None
+        if c.get("at") is not None and len(series) >= 2:
+            jat = max(1, min(len(series) - 1, int(round(c["at"] * (len(series) - 1)))))
         if k == "escape":
             lo, hi = min(x[0] for x in series), max(x[0] for x in series)
             emax = lo + c["q"] * (hi - lo)
+            if jat is not None:
+                before = max(x[0] for x in series[:jat])
+                if series[jat][0] > before:
+                    emax = 0.5 * (before + series[jat][0])
+                    aimed = True
             if not emax > 0:
                 continue
         elif k == "encounter":
             lo, hi = min(x[1][0] for x in series), max(x[1][0] for x in series)
             emin = hi - c["q"] * (hi - lo)
+            if jat is not None:
+                before = min(x[1][0] for x in series[:jat])
+                if series[jat][1][0] < before:
+                    emin = 0.5 * (before + series[jat][1][0])
+                    aimed = True
             if not emin > 0:
                 continue
         elif k == "collision":
@@ -688,8 +707,9 @@ def run_status(case, ctx):
     allowed = set()
     for kind in true_at | maybe_at:      # conditions within rounding of their threshold at k* may or may not count
         allowed.add(EXC_OF.get(kind, kind))
-    if reached and "noparticles" not in true_at:
-        allowed.add("success")
+    # tmax being reached at the same boundary does not turn a true condition into a success: the distance checks run
+    # after every completed step, the final (possibly shortened) one included, before the end of the interval is
+    # looked at, and a status set by stop() / a halting collision is kept
     if got not in allowed:
         raise Violation("at step boundary %d the true exit condition(s) are %s; integrate ended with %s %s"
                         % (kstar, sorted(true_at), got, where))
@@ -697,6 +717,12 @@ def run_status(case, ctx):
         ctx.cls(kind)
     if kstar == 0:
         ctx.cls("k0")
+    if reached:
+        ctx.cls("at_last_boundary")
+        if case["eft"] == 1:
+            ctx.cls("at_last_boundary_eft1")
+    if aimed:
+        ctx.cls("aimed")
     if kstar >= 1:
         ctx.nontrivial()
     # twin advanced with step(): same trajectory, one step at a time, no exit machinery involved
